@@ -32,6 +32,8 @@ def call_args(t):
 
 
 def nonnull(conds, p):
+    if isinstance(p, tuple) and p and p[0] in ("decay", "addr", "fn", "str", "strobj"):
+        return True  # address of an existing object
     return cmp_("!=", p, C(0)) in conds
 
 
